@@ -77,6 +77,40 @@ class StubES(torch.nn.Module):
             molecule.dP2dt2 = molecule.dm - P0
         else:
             molecule.dm = Dstar
+        exc = self.seqm_parameters.get("excited_states")
+        if isinstance(exc, dict) and "n_states" in exc:
+            # synthetic excited-state bookkeeping (amplitudes, transition densities, state energies) with a linear
+            # response to the amplitudes / transition densities handed in, so that the engines' excited-state
+            # history (reuse of amplitudes, XL history of transition densities, checkpointed copies) is visible
+            nst = int(exc["n_states"])
+            nb = Dstar.shape[-1]
+            ks = torch.arange(1, nst + 1, dtype=R.dtype).view(1, nst, 1, 1)
+            Tstar = Dstar.unsqueeze(1) * torch.cos(0.3 * ks) + 0.05 * torch.sin(0.7 * ks) * torch.eye(nb, dtype=R.dtype).view(1, 1, nb, nb)
+            amp_star = Tstar[:, :, :2, :].reshape(nmol, nst, 2 * nb)
+            T, amp = Tstar, amp_star
+            if torch.is_tensor(cis_amp):
+                if cis_amp.shape == Tstar.shape:
+                    T = Tstar + p["gamma"] * (cis_amp - Tstar)
+                    amp = T[:, :, :2, :].reshape(nmol, nst, 2 * nb)
+                elif cis_amp.shape == amp_star.shape:
+                    amp = amp_star + p["gamma"] * (cis_amp - amp_star)
+                    T = Tstar.clone()
+                    T[:, :, :2, :] = amp.reshape(nmol, nst, 2, nb)
+            molecule.cis_amplitudes = amp
+            molecule.transition_density_matrices = T
+            molecule.cis_energies = 3.0 + torch.arange(nst, dtype=R.dtype).view(1, nst) + 0.05 * E.unsqueeze(1) + 0.01 * (amp * amp).sum(-1)
+            molecule.old_mos = Dstar.clone()
+            molecule.molecular_orbitals = Dstar.clone()
+            act = molecule.active_state
+            act = act if torch.is_tensor(act) else torch.full((nmol,), int(act), dtype=torch.long)
+            on = act > 0
+            if on.any():
+                idx = (act - 1).clamp(min=0)
+                molecule.Etot = E + torch.where(on, molecule.cis_energies[torch.arange(nmol), idx], torch.zeros_like(E))
+            Wd = torch.stack([torch.sin(0.21 * (torch.arange(nb, dtype=R.dtype).unsqueeze(0) + 3.0 * torch.arange(nb, dtype=R.dtype).unsqueeze(1)) + c) for c in (0.5, 1.5, 2.5)], 0)
+            self._exc_dipole = torch.einsum("mij,cij->mc", T[:, 0], Wd)
+        else:
+            self._exc_dipole = None
         molecule.e_gap = torch.ones(nmol, dtype=R.dtype)
         molecule.e_mo = torch.zeros(nmol, 4 * n, dtype=R.dtype)
         # "dipole": a fixed linear functional of the density is added, so that the density history of the
@@ -86,6 +120,8 @@ class StubES(torch.nn.Module):
         ii = torch.arange(nb, dtype=R.dtype)
         W = torch.stack([torch.cos(0.37 * (ii.unsqueeze(0) + 2.0 * ii.unsqueeze(1)) + c) for c in (0.0, 1.0, 2.0)], 0)
         molecule.dipole = (R * real.unsqueeze(-1)).sum(1) * 0.1 + torch.einsum("mij,cij->mc", molecule.dm, W)
+        if self._exc_dipole is not None:
+            molecule.dipole = molecule.dipole + self._exc_dipole
         molecule.q = torch.zeros(nmol, n, dtype=R.dtype)
 
 
